@@ -158,9 +158,25 @@ def _apply_ops(sp, model, ops, ctx):
     for op in ops:
         if op["op"] == "move":
             T = O.pose_from_taa(op["pose"])
-            sut(sp.move, sps.make_tm(T, op.get("form", "taa")))
+            rel_before = O.inv(model.T_bot) @ model.T_top
+            new_base = sps.make_tm(T, op.get("form", "taa"))
+            T_req = sps.held(new_base)
+            sut(sp.move, new_base)
             moved = True
-            model.T_bot, model.T_top = sps.read_poses(sp)
+            if op.get("form") == "taa_wound":
+                ctx.label("moved to a base written with a rotation vector beyond one revolution")
+            Tb_now, Tt_now = sps.read_poses(sp)
+            # "Move entire stewart platform to another location and orientation": the base stands at the pose given,
+            # the top plate keeps its pose relative to it (the moves of these clauses happen at the neutral pose)
+            e_b = _pose_err(model, Tb_now, T_req)
+            e_r = _pose_err(model, O.inv(Tb_now) @ Tt_now, rel_before)
+            big = max(1.0, model.scale, _pnorm(T_req))
+            # the base is stored as given (1e-9); the relative pose goes through the library's log/exp, whose
+            # resolution near zero angles is the 5e-6 of the tolerance policy
+            if e_b > 1e-9 * big or e_r > 5e-6 * big:
+                raise Violation("after move(%s) the base is %.3g from the pose given (limit %.3g) and the relative plate "
+                                "pose changed by %.3g (limit %.3g)" % (op.get("form", "taa"), e_b, 1e-9 * big, e_r, 5e-6 * big))
+            model.T_bot, model.T_top = Tb_now, Tt_now
             _check_plate_fixed(sp, model, "after move", _pnorm(model.T_bot, model.T_top))
         elif op["op"] == "spin":
             sut(sp.spinCustom, float(op["angle"]))
@@ -176,6 +192,34 @@ def _pose_err(model, T_got, T_goal):
     P = np.hstack([model.t, np.zeros((3, 1))])
     d = (T_got[:3, :3] @ P + T_got[:3, 3:4]) - (T_goal[:3, :3] @ P + T_goal[:3, 3:4])
     return float(np.sqrt((d * d).sum(axis=0)).max())
+
+
+LEN_TOL = 1e-5        # the library's own acceptance of an FK solution: every leg length within 1e-5 of the request
+
+
+def _pose_sensitivity(model, T_bot, T_top):
+    """Upper bound on the displacement of a top-plate point per unit of leg-length error (worst sign pattern over
+    the six legs), from the oracle's own leg-length Jacobian at the goal pose.  'Recovers the pose to solver
+    tolerance': the solvers' tolerance is on the LENGTHS; what that leaves for the pose is this factor times it, and
+    near a singular configuration (one leg-length combination hardly moves the plate) the factor is large."""
+    hh = 1e-6 * max(1.0, model.scale)
+    J = np.zeros((6, 6))
+    for i in range(6):
+        e = np.zeros(6)
+        e[i] = hh if i < 3 else 1e-6
+        Dp, Dm = O.pose_from_taa(e), O.pose_from_taa(-e)
+        J[:, i] = (sps.oracle_leg_lengths(model, T_bot, T_top @ Dp) - sps.oracle_leg_lengths(model, T_bot, T_top @ Dm)) / (2 * e[i])
+    try:
+        Ji = np.linalg.inv(J)
+    except np.linalg.LinAlgError:
+        return float("inf")
+    P = np.hstack([model.t, np.zeros((3, 1))])
+    worst = 0.0
+    for k in range(P.shape[1]):
+        p = P[:, k]
+        M = np.hstack([np.eye(3), -np.array([[0, -p[2], p[1]], [p[2], 0, -p[0]], [-p[1], p[0], 0]])])   # x -> v + w x p
+        worst = max(worst, float(np.sqrt(((M @ Ji) ** 2).sum(axis=0)).sum()))
+    return worst
 
 
 def _decade(x, unit):
@@ -351,7 +395,7 @@ def _fk_roundtrip(case, ctx):
             # Only for the Raphson solver (fk_mode 1), which iterates in base-relative coordinates and therefore really
             # does "start from the neutral pose" over the new base.  fk_mode 0 starts scipy's fsolve from the GLOBAL top
             # pose it finds, which for a displaced base is not the neutral pose of the statement: not generated.
-            if case.get("pp_x") is not None and mode == 1:
+            if case.get("pp_x") is not None:
                 X = O.pose_from_taa(np.asarray(case["pp_x"], dtype=float))
                 T_bot, T_top = X @ T_bot, X @ T_top          # what FK is now asked to assemble
                 ctx.label("plate_pos given, different from the current base")
@@ -368,7 +412,13 @@ def _fk_roundtrip(case, ctx):
             raise Violation("FK returned %r, not (pose, valid)" % (type(ret),))
         top_ret = sps.held(ret[0])
         Tb_now, Tt_now = sps.read_poses(sp)
-        tol = FK_TOL * h
+        tol_len = FK_TOL * h
+        amp = _pose_sensitivity(model, T_bot, T_top)
+        tol = max(tol_len, amp * LEN_TOL)
+        if tol > tol_len:
+            ctx.label("ill-conditioned pose: a 1e-5 length error moves the plate by more than 1e-3 h (pose tolerance = sensitivity x 1e-5)")
+            if tol > 0.05 * h:
+                ctx.skip("singular configuration: leg lengths to 1e-5 leave the pose undetermined to more than 0.05 h")
         if not (np.all(np.isfinite(top_ret)) and np.all(np.isfinite(Tt_now)) and np.all(np.isfinite(Tb_now))):
             raise Violation("FK(mode %d) produced non-finite poses" % mode)
         e_ret = _pose_err(model, top_ret, T_top)
@@ -408,7 +458,7 @@ def _fk_roundtrip(case, ctx):
             raise Violation("%s: getTopT() is %.3g from the goal pose" % (msg, e_top))
         if e_state > tol:
             raise Violation("%s: getBottomT()^-1 getTopT() is %.3g from the goal relative pose" % (msg, e_state))
-        if e_len > tol:
+        if e_len > tol_len:
             raise Violation("%s: getLens() differs from the requested lengths by %.3g" % (msg, e_len))
 
 
@@ -464,7 +514,8 @@ _SWITCHES = st.sampled_from([(1, 0, 0, 1), (1, 0, 0, 1), (1, 1, 1, 1), (1, 1, 0,
 
 
 def _move_op():
-    return st.fixed_dictionaries({"op": st.just("move"), "pose": sps.base_poses(), "form": _FORMS})
+    return st.fixed_dictionaries({"op": st.just("move"), "pose": sps.base_poses(),
+                                  "form": st.sampled_from(["mat", "taa", "taa", "taa_wound"])})
 
 
 def _spin_op():
